@@ -882,3 +882,50 @@ Qed.
 Theorem chain_append : forall i cs f bs g r,
   run_c i (cs ++ [f]) r = app_c i f (run_c i cs r) /\ run_b (bs ++ [g]) r = app_b g (run_b bs r).
 Proof. intros. split; [apply run_c_snoc|apply run_b_snoc]. Qed.
+
+(* ------------------------------------------------------------------ *)
+(* the in-memory dict / python-set iteration order is unobservable      *)
+
+Lemma bassoc_perm {V} (t t' : list (bytes * V)) i :
+  NoDup (map fst t) -> Permutation t t' -> bassoc i t = bassoc i t'.
+Proof.
+  intros N P. assert (N' : NoDup (map fst t')) by (eapply Permutation_NoDup; [apply Permutation_map, P|exact N]).
+  destruct (bassoc i t) as [v|] eqn:E.
+  - symmetry. apply bassoc_NoDup_In; [exact N'|]. eapply Permutation_in; [exact P|]. now apply bassoc_In.
+  - symmetry. apply bassoc_None. apply bassoc_None in E. intros H. apply E.
+    eapply Permutation_in; [apply Permutation_map, Permutation_sym, P|exact H].
+Qed.
+
+Lemma omap_ext {A B} (f g : A -> option B) l : (forall x, f x = g x) -> omap f l = omap g l.
+Proof. intros H. induction l as [|x l IH]; cbn; [reflexivity|]. now rewrite H, IH. Qed.
+
+Theorem mem_dict_order_irrelevant : forall tbl tbl' cs bs,
+  NoDup (map fst tbl) -> Permutation tbl tbl' ->
+  let d := Mem tbl cs bs in let d' := Mem tbl' cs bs in
+  fd_num d = fd_num d' /\ fd_ids d = fd_ids d' /\ fd_sizes d = fd_sizes d' /\ fd_clients d = fd_clients d' /\
+  (forall i, fd_size d i = fd_size d' i /\ fd_get d i = fd_get d' i) /\
+  (forall req, fd_gets d req = fd_gets d' req) /\
+  (forall s e, fd_slice d s e = fd_slice d' s e).
+Proof.
+  intros tbl tbl' cs bs N P. cbv zeta.
+  assert (M : mem_ids tbl = mem_ids tbl').
+  { unfold mem_ids. apply bsort_perm_unique; [exact N|]. now apply Permutation_map. }
+  assert (L : forall i, bassoc i tbl = bassoc i tbl') by (intros i; now apply bassoc_perm).
+  assert (G : forall i, fd_get (Mem tbl cs bs) i = fd_get (Mem tbl' cs bs) i) by (intros i; cbn [fd_get]; now rewrite L).
+  assert (GS : forall req, fd_gets (Mem tbl cs bs) req = fd_gets (Mem tbl' cs bs) req).
+  { intros req. cbn [fd_gets]. now apply gets_ext. }
+  repeat split.
+  - cbn [fd_num]. now rewrite M.
+  - cbn [fd_ids]. now rewrite M.
+  - cbn [fd_sizes]. rewrite M.
+    rewrite (omap_ext _ (fun i => match bassoc i tbl' with Some r => Some (i, stored_len r) | None => None end));
+      [reflexivity|]. intros i. now rewrite L.
+  - unfold fd_clients. rewrite M. apply GS.
+  - cbn [fd_size]. now rewrite L.
+  - apply G.
+  - apply GS.
+  - intros s e. cbn [fd_slice]. rewrite M. destruct (in_memory_slice_ids (mem_ids tbl') s e) as [ids|]; [|reflexivity].
+    unfold restrict.
+    rewrite (omap_ext _ (fun i => match bassoc i tbl' with Some r => Some (i, r) | None => None end));
+      [reflexivity|]. intros i. now rewrite L.
+Qed.
